@@ -135,6 +135,9 @@ async fn run_one(sc: &Value, listener: &TcpListener, sched: &AsyncSched, idx: us
             "P1" => p1.clone(),
             "P2" => p2.clone(),
             "D" => d.clone(),
+            // P1's number and serial under the creation of another incarnation / under another node's name: nobody here
+            "S1" => ExternalPid::new(p1.node.clone(), p1.id, p1.serial, p1.creation.wrapping_add(1)),
+            "F1" => ExternalPid::new(Atom::new("elsewhere@127.0.0.1"), p1.id, p1.serial, p1.creation),
             _ => never.clone(),
         };
         let body: Option<Vec<u8>> = match kind.as_str() {
